@@ -168,9 +168,15 @@ class kFlowDecompCycles(walkmodel.AbstractWalkModelDiGraph):
         # Call the constructor of the parent class AbstractPathModelDAG
         # Build per-edge repetition upper bounds: use the edge flow when available,
         # otherwise fall back to self.w_max (e.g., for source/sink helper edges).
+        # Between two traversals of an edge whose flow is not trusted, a walk traverses a trusted edge (or closes a cycle of
+        # untrusted edges, which is useless), so the total trusted flow bounds the useful traversals of such an edge
+        untrusted_edge_upper_bound = max(self.w_max, 1 + sum(
+            data[self.flow_attr] for u, v, data in self.G.edges(data=True)
+            if self.flow_attr in data and (u, v) not in self.edges_to_ignore
+        ))
         self.edge_upper_bounds_dict = {
             # The flow value of an ignored edge is not trusted, so it cannot bound how often the edge is traversed
-            (u, v): (data[self.flow_attr] if (self.flow_attr in data and (u, v) not in self.edges_to_ignore) else self.w_max)
+            (u, v): (data[self.flow_attr] if (self.flow_attr in data and (u, v) not in self.edges_to_ignore) else untrusted_edge_upper_bound)
             for u, v, data in self.G.edges(data=True)
         }
         super().__init__(
